@@ -34,7 +34,8 @@ BOUNDS = {
              'each end-of-data reply, RSET, QUIT) answered with a reply whose '
              '3 digits are symbolic (first digit 2, 4 or 5), a malformed line, '
              'a disconnect or silence (timeout), the rest succeeding; all '
-             'RCPT outcome vectors; a second message on a reused connection; '
+             'RCPT outcome vectors; the same with the first recipient refused '
+             '(550) beforehand; a second message on a reused connection; '
              'pipe relays (generic per-recipient, maildrop, dovecot-lda): '
              'symbolic exit status -3..255, output from a menu with symbolic '
              'first bytes, timeout; HTTP relay: symbolic status 200..599, '
@@ -65,6 +66,11 @@ def cells(tier):
             for n in ((1, 2) if q else (1, 2, 3)):
                 out.append({'kind': 'smtp', 'lmtp': lmtp, 'pipe': pipe,
                             'n': n})
+    for pipe in (0, 1):
+        out.append({'kind': 'smtp', 'lmtp': 0, 'pipe': pipe, 'n': 2,
+                    'pre_reject': 1})
+    out.append({'kind': 'smtp', 'lmtp': 1, 'pipe': 1, 'n': 2,
+                'pre_reject': 1})
     out.append({'kind': 'smtp', 'lmtp': 0, 'pipe': 1, 'n': 1, 'reuse': 1})
     out.append({'kind': 'smtp', 'lmtp': 1, 'pipe': 0, 'n': 2, 'reuse': 1})
     for cls in ('pipe', 'pipe1', 'maildrop', 'dovecot'):
@@ -146,6 +152,9 @@ def run_smtp(cell):
             over[fault] = ('close',)
         else:
             over[fault] = ('stall',)
+    if cell.get('pre_reject') and fault != ('RCPT', 0):
+        # an earlier, non-fatal 5xx: the first recipient is refused
+        over[('RCPT', 0)] = ('reply', '550', ['5.1.1 no such user'])
     ext = ('PIPELINING', '8BITMIME') if pipe else ('8BITMIME',)
     peers = []
 
